@@ -8,8 +8,9 @@ Mirrors `src/debugger/debugee/tracer.rs` (`resume`, `group_stop_interrupt`, `app
 The model is an ACCEPTOR of the stream of kernel calls *with their answers* (`Ev`): `step s e = some s'` iff `e` is a
 call the code issues at control point `s` given all earlier answers.  Hash-map iteration orders (`cont_stopped`,
 the snapshot of the group stop) are free: any order is accepted, omissions and extra calls are not.
-Control is an await state `Aw` plus an explicit continuation stack `List K` (the code nests
-`resume → apply_new_status → group_stop_interrupt → apply_new_status → wait_one`).
+Control is an await state `Aw` plus the two nested activations the code can be in: the outer loop
+(`resume` or `single_step`) and — optionally — one group stop (`gs`; `group_stop_guard` is `gs.isSome`: the latch makes
+a nested `group_stop_interrupt` return at once, so there is never a second one).
 Rust panics (`unwrap`, `todo!`, `unreachable!`, `debug_assert!`) and early `Err` returns are explicit terminal
 states (DESIGN 2.4).  Core Lean only (linked into `bsmodel`).
 -/
@@ -105,15 +106,31 @@ inductive Reason
   | start
   deriving DecidableEq, Repr
 
-/-- continuation frames, innermost first -/
-inductive K
-  | resume                                                  -- `resume`: `apply_new_status` returns into the loop
-  | gs (init : Option Tid) (round : Nat) (todo : List Tid) (cur : Tid)  -- the `while` loop of the group stop for `cur`
-  | applyBrk (t : Tid) (pc : Nat)                           -- `apply_new_status`, breakpoint branch, after its group stop
-  | applySig (t : Tid) (s : Nat)                            -- … signal branch …
-  | inject (t : Tid) (s : Nat)                              -- `resume`: group stop before returning the next queued signal
-  | step (t : Tid) (ipc : Nat)                              -- `single_step` loop
-  | stepOver (a : Nat)                                      -- `step_over_breakpoint` after `single_step`
+/-- the loop `apply_new_status` returns into when no group stop is in progress -/
+inductive Outer
+  | resume
+  | step (t : Tid) (ipc a : Nat)   -- `single_step(t)` called by `step_over_breakpoint` for the breakpoint at `a`
+  deriving DecidableEq, Repr
+
+/-- who called `group_stop_interrupt` (what is returned once it is over) -/
+inductive GRet
+  | brk (t : Tid) (pc : Nat)     -- `apply_new_status`, breakpoint branch
+  | sig (t : Tid) (s : Nat)      -- `apply_new_status`, signal branch
+  | inject (t : Tid) (s : Nat)   -- `resume`: more signals queued
+  deriving DecidableEq, Repr
+
+def GRet.reason : GRet → Reason
+  | .brk t pc => .bp t pc
+  | .sig t s => .sig t s
+  | .inject t s => .sig t s
+
+/-- a group stop in progress -/
+structure Gs where
+  init  : Option Tid
+  round : Nat
+  todo  : List Tid          -- tracees of the snapshot not yet visited
+  cur   : Option Tid        -- tracee whose `while` loop is running
+  ret   : GRet
   deriving DecidableEq, Repr
 
 /-- what the next call must be -/
@@ -123,29 +140,28 @@ inductive Aw
   | stepReq (t : Tid) (sg : Nat)                  -- `tracee.step(sig)`
   | pokeInt3 (a : Nat) (r : Option Reason)        -- `brkpt.enable()` after the step
   | contAll (inj : Option (Tid × Nat)) (excl visited : List Tid) (thenGs : Option (Tid × Nat))
-  | waitAny
-  | waitOne (t : Tid)                             -- `wait_one` of the group stop / of `single_step` (frame on the stack)
+  | waitOne (t : Tid)                             -- `wait_one` of the group stop / of `single_step`
   | childWait (c : Tid)                           -- `new_tracee.wait_one()` in the clone branch
   | stepInfo (w : WSt)                            -- `getsiginfo` of `single_step`
   | siginfo (t : Tid) (s : Nat)                   -- `getsiginfo` of `apply_new_status`
   | setpc (t : Tid) (old : Nat)
   | evmsg (t : Tid)
   | contExit (t : Tid)                            -- `_ = tracee.continue(None)` of the exit event
-  | intr (init : Option Tid) (round : Nat) (todo : List Tid)
+  | intr                                          -- the group stop interrupts the next running tracee of its snapshot
   | dead (why : String)                           -- panic / error return / unsupported branch / rejected stream
   deriving DecidableEq, Repr
 
 structure St where
   tbl    : Table
   queue  : List (Tid × Nat) := []      -- inject_signal_queue
-  latch  : Bool := false               -- group_stop_guard
+  gs     : Option Gs := none           -- group stop in progress (`group_stop_guard` = `gs.isSome`)
+  outer  : Outer := .resume
   proc   : Tid := 0
   bps    : List (Nat × Nat) := []      -- enabled user breakpoints: (address, original byte)
   lifted : Option Nat := none          -- breakpoint whose INT3 is currently replaced by the original byte
   focus  : Tid := 0
   fpc    : Option Nat := none          -- pc of the thread in focus when it sits on a breakpoint
   aw     : Aw := .idle
-  stack  : List K := []
   last   : Option Reason := none       -- what the last command returned
   deriving Repr
 
@@ -160,12 +176,12 @@ def origOf (s : St) (a : Nat) : Option Nat := (s.bps.find? (·.1 == a)).map (·.
 
 def die (s : St) (why : String) : St := { s with aw := .dead why }
 
-/-- `continue_execution` got `r` from `resume` -/
+/-- `continue_execution` got `r` from `resume` (or from `step_over_breakpoint`): back at the prompt -/
 def toPrompt (s : St) (r : Reason) : St :=
   match r with
-  | .bp t pc => { s with aw := .idle, stack := [], focus := t, fpc := some pc, last := some r }
-  | .sig t _ => { s with aw := .idle, stack := [], focus := t, fpc := none, last := some r }
-  | .exit _ => { s with aw := .idle, stack := [], fpc := none, last := some r }
+  | .bp t pc => { s with aw := .idle, gs := none, outer := .resume, focus := t, fpc := some pc, last := some r }
+  | .sig t _ => { s with aw := .idle, gs := none, outer := .resume, focus := t, fpc := none, last := some r }
+  | .exit _ => { s with aw := .idle, gs := none, outer := .resume, fpc := none, last := some r }
   | .nosuch _ => die s "err:process-not-started"
   | .start => die s "unsupported:debugee-start"
 
@@ -173,9 +189,9 @@ def toPrompt (s : St) (r : Reason) : St :=
 def resumeHead (s : St) : St :=
   match s.queue with
   | (t, sg) :: rest =>
-    { s with queue := rest, stack := [.resume],
+    { s with queue := rest, outer := .resume,
              aw := .contAll (some (t, sg)) (rest.map (·.1)) [] (rest.head?) }
-  | [] => { s with stack := [.resume], aw := .contAll none [] [] none }
+  | [] => { s with outer := .resume, aw := .contAll none [] [] none }
 
 /-- tracees `cont_stopped(_ex)` still has to continue -/
 def contPending (s : St) (excl visited : List Tid) : List Tid :=
@@ -183,80 +199,77 @@ def contPending (s : St) (excl visited : List Tid) : List Tid :=
 
 def gsCands (s : St) (todo : List Tid) : List Tid := todo.filter (fun t => s.tbl.isRunning t)
 
-/-- Silent part of the machine: `unwind fuel s v` delivers `v` to the innermost frame and runs until the next call.
-`v = some r` is the return value of `apply_new_status` (`r : Option Reason`), `v = none` is the return of a group stop.
-Each recursive call has a strictly shorter stack; `fuel` only makes the recursion structural. -/
-inductive Ret
-  | apply (r : Option Reason)
-  | gsDone
-  | pick (init : Option Tid) (round : Nat) (todo : List Tid)   -- choose the next tracee of the group-stop snapshot
-  deriving Repr
+/-- `apply_new_status` returned `r` into `resume` or `single_step` (no group stop in progress) -/
+def deliverOuter (s : St) (r : Option Reason) : St :=
+  match s.outer with
+  | .resume =>
+    match r with
+    | some (.sig t sg) => if isQuiet sg then resumeHead s else toPrompt s (.sig t sg)
+    | some x => toPrompt s x
+    | none => resumeHead s
+  | .step t _ a =>
+    match r with
+    | none => { s with aw := .waitOne t }
+    | some (.bp _ _) => die s "panic:unreachable-breakpoint-in-step"
+    | some (.exit _) => die s "err:process-exit"
+    | some .start => die s "panic:start-twice"
+    | some (.sig p sg) =>
+      if isQuiet sg then { s with aw := .stepReq t sg } else { s with aw := .pokeInt3 a (some (.sig p sg)) }
+    | some (.nosuch _) => { s with aw := .pokeInt3 a none }
 
-def unwind : Nat → St → Ret → St
-  | 0, s, _ => die s "out-of-fuel"
-  | fuel + 1, s, .pick init round todo =>
-    if (gsCands s todo).isEmpty then
-      if round = 0 then unwind fuel s (.pick init 1 s.tbl.keys)
-      else unwind fuel { s with latch := false } .gsDone
-    else { s with aw := .intr init round todo }
-  | fuel + 1, s, .gsDone =>
-    match s.stack with
-    | .applyBrk t pc :: rest => unwind fuel { s with stack := rest } (.apply (some (.bp t pc)))
-    | .applySig t sg :: rest => unwind fuel { s with stack := rest } (.apply (some (.sig t sg)))
-    | .inject t sg :: _ => toPrompt s (.sig t sg)
-    | _ => die s "model:bad-stack"
-  | fuel + 1, s, .apply r =>
-    match s.stack with
-    | .resume :: _ =>
-      match r with
-      | some (.sig t sg) => if isQuiet sg then resumeHead s else toPrompt s (.sig t sg)
-      | some x => toPrompt s x
-      | none => resumeHead s
-    | .gs init round todo cur :: rest =>
-      match r with
-      | some (.exit _) => die s "err:process-exit"
-      | some .start => die s "panic:start-twice"
-      | _ =>
-        -- the `match stop` of the while loop, then the reload of the tracee
-        let brk : Bool := match r with
-          | some (.bp p _) => p == cur
-          | some (.sig _ _) => true
-          | some (.nosuch _) => true
-          | _ => false
-        let lv := brk || (match s.tbl.find cur with
-          | none => true
-          | some row => row.st == .stop)
-        if lv then
-          unwind fuel { s with tbl := s.tbl.finish cur, stack := rest } (.pick init round todo)
-        else { s with aw := .waitOne cur }
-    | .step t _ :: rest =>
-      match r with
-      | none => { s with aw := .waitOne t }
-      | some (.bp _ _) => die s "panic:unreachable-breakpoint-in-step"
-      | some (.exit _) => die s "err:process-exit"
-      | some .start => die s "panic:start-twice"
-      | some (.sig p sg) =>
-        if isQuiet sg then { s with aw := .stepReq t sg }
-        else match rest with
-          | .stepOver a :: _ => { s with stack := rest, aw := .pokeInt3 a (some (.sig p sg)) }
-          | _ => die s "model:bad-stack"
-      | some (.nosuch _) =>
-        match rest with
-        | .stepOver a :: _ => { s with stack := rest, aw := .pokeInt3 a none }
-        | _ => die s "model:bad-stack"
-    | _ => die s "model:bad-stack"
+/-- the group stop is over: open the latch, return to the caller -/
+def gsEnd (s : St) (g : Gs) : St :=
+  match g.ret with
+  | .inject t sg => toPrompt { s with gs := none } (.sig t sg)
+  | .brk t pc => deliverOuter { s with gs := none } (some (.bp t pc))
+  | .sig t sg => deliverOuter { s with gs := none } (some (.sig t sg))
 
-def fuelOf (s : St) : Nat := 4 * s.stack.length + 8
+/-- second (last) round: next running tracee of the snapshot, or done -/
+def pick1 (s : St) (g : Gs) : St :=
+  if (gsCands s g.todo).isEmpty then gsEnd s g
+  else { s with gs := some { g with cur := none }, aw := .intr }
 
-/-- `group_stop_interrupt(initiator)`; the caller has pushed its continuation frame -/
-def groupStop (s : St) (init : Option Tid) : St :=
-  if s.latch then unwind (fuelOf s) s .gsDone
-  else
+/-- next running tracee of the snapshot; after the first round a second one over a fresh snapshot -/
+def pick (s : St) (g : Gs) : St :=
+  if (gsCands s g.todo).isEmpty then
+    if g.round = 0 then pick1 s { g with round := 1, todo := s.tbl.keys, cur := none } else gsEnd s g
+  else { s with gs := some { g with cur := none }, aw := .intr }
+
+/-- `apply_new_status` returned `r` inside the `while` loop of the group stop for `cur` -/
+def deliverGs (s : St) (g : Gs) (cur : Tid) (r : Option Reason) : St :=
+  match r with
+  | some (.exit _) => die s "err:process-exit"
+  | some .start => die s "panic:start-twice"
+  | _ =>
+    -- the `match stop` of the while loop, then the reload of the tracee
+    let brk : Bool := match r with
+      | some (.bp p _) => p == cur
+      | some (.sig _ _) => true
+      | some (.nosuch _) => true
+      | _ => false
+    let lv := brk || (match s.tbl.find cur with
+      | none => true
+      | some row => row.st == .stop)
+    if lv then pick { s with tbl := s.tbl.finish cur } { g with cur := none }
+    else { s with aw := .waitOne cur }
+
+/-- return of `apply_new_status` -/
+def ret (s : St) (r : Option Reason) : St :=
+  match s.gs with
+  | some g =>
+    match g.cur with
+    | some c => deliverGs s g c r
+    | none => die s "model:no-current-tracee"
+  | none => deliverOuter s r
+
+/-- `group_stop_interrupt(initiator)` called by `gr` -/
+def groupStop (s : St) (init : Option Tid) (gr : GRet) : St :=
+  match s.gs with
+  | some _ => ret s (some gr.reason)     -- latch closed: returns at once, `apply_new_status` returns `Some(reason)`
+  | none =>
     let others := s.tbl.rows.any (fun r => some r.tid != init)
-    if !others then unwind (fuelOf s) s .gsDone
-    else unwind (fuelOf s) { s with latch := true } (.pick init 0 s.tbl.keys)
-
-def ret (s : St) (r : Option Reason) : St := unwind (fuelOf s) s (.apply r)
+    if !others then gsEnd s ⟨init, 0, [], none, gr⟩
+    else pick s ⟨init, 0, s.tbl.keys, none, gr⟩
 
 /-- `apply_new_status(status)` up to its first call -/
 def applyNew (s : St) (w : WSt) : St :=
@@ -287,16 +300,16 @@ def cmdContinue (s : St) : St :=
     | some (.exit _) => die s "err:process-not-started"
     | _ =>
       match s.fpc with
-      | some a => if hasBp s a then { s with aw := .pokeOrig a, stack := [] } else resumeHead { s with stack := [.resume] }
-      | none => resumeHead { s with stack := [.resume] }
+      | some a => if hasBp s a then { s with aw := .pokeOrig a } else resumeHead s
+      | none => resumeHead s
   | _ => die s "model:continue-while-running"
 
 /-- the group stop interrupts `t`, one of the running tracees of its snapshot -/
-def onIntr (s : St) (init : Option Tid) (round : Nat) (todo : List Tid) (t : Tid) (r : Ans) : St :=
-  if (gsCands s todo).contains t then
-    let todo' := todo.erase t
-    if r = .ok then { s with aw := .waitOne t, stack := .gs init round todo' t :: s.stack }
-    else if r = .esrch then unwind (fuelOf s) { s with tbl := s.tbl.setSt t .stop } (.pick init round todo')
+def onIntr (s : St) (g : Gs) (t : Tid) (r : Ans) : St :=
+  if (gsCands s g.todo).contains t then
+    let todo' := g.todo.erase t
+    if r = .ok then { s with aw := .waitOne t, gs := some { g with todo := todo', cur := some t } }
+    else if r = .esrch then pick { s with tbl := s.tbl.setSt t .stop } { g with todo := todo', cur := none }
     else die s "err:ptrace-interrupt"
   else die s "reject:interrupt"
 
@@ -310,7 +323,7 @@ def step (s : St) (e : Ev) : St :=
   | .idle, _ => die s "reject:call-at-the-prompt"
   -- step_over_breakpoint
   | .pokeOrig a, .poke a' b =>
-    if a' = a ∧ some b = origOf s a then { s with lifted := some a, aw := .stepReq s.focus 0, stack := [.step s.focus a, .stepOver a] }
+    if a' = a ∧ some b = origOf s a then { s with lifted := some a, aw := .stepReq s.focus 0, outer := .step s.focus a a }
     else die s "reject:poke-orig"
   | .stepReq t sg, .sstep t' sg' r =>
     if t' = t ∧ sg' = sg then (if r = .ok then { s with aw := .waitOne t } else die s "err:ptrace-step")
@@ -320,7 +333,7 @@ def step (s : St) (e : Ev) : St :=
       let s := { s with lifted := none }
       match r with
       | some x => toPrompt s x
-      | none => resumeHead { s with stack := [.resume] }
+      | none => resumeHead s
     else die s "reject:poke-int3"
   -- cont_stopped / cont_stopped_ex
   | .contAll inj excl vis thenGs, .cont t sg r =>
@@ -339,46 +352,44 @@ def step (s : St) (e : Ev) : St :=
       | none =>
         match w with
         | .echild => toPrompt s (.nosuch s.proc)
-        | _ => applyNew { s with aw := .waitAny } w
+        | _ => applyNew s w
   | .contAll _ excl vis (some (t, sg)), .intr t' r =>
     -- more signals queued: `group_stop_interrupt(-1)` and return the next one
     if !(contPending s excl vis).isEmpty then die s "reject:interrupt-before-all-continued"
     else
-      let s1 := groupStop { s with stack := .inject t sg :: s.stack } none
-      match s1.aw with
-      | .intr init round todo => onIntr s1 init round todo t' r
-      | _ => die s1 "reject:interrupt"
+      let s1 := groupStop s none (.inject t sg)
+      match s1.aw, s1.gs with
+      | .intr, some g => onIntr s1 g t' r
+      | _, _ => die s1 "reject:interrupt"
   -- group stop: next tracee of the snapshot
-  | .intr init round todo, .intr t r => onIntr s init round todo t r
+  | .intr, .intr t r =>
+    match s.gs with
+    | some g => onIntr s g t r
+    | none => die s "model:no-group-stop"
   | .waitOne t, .wait (some t') w =>
     if t' ≠ t ∨ w.tid ≠ some t then die s "reject:wait-one"
-    else match s.stack with
-      | .gs init round todo cur :: rest =>
-        (match w with
-         | .evstop _ _ =>
-           unwind (fuelOf s) { s with tbl := s.tbl.finish cur, stack := rest } (.pick init round todo)
-         | _ => applyNew s w)
-      | .step _ _ :: _ => { s with aw := .stepInfo w }
-      | _ => die s "model:bad-stack"
+    else match s.gs with
+      | some g =>
+        (match g.cur, w with
+         | some cur, .evstop _ _ => pick { s with tbl := s.tbl.finish cur } { g with cur := none }
+         | some _, _ => applyNew s w
+         | none, _ => die s "model:no-current-tracee")
+      | none =>
+        match s.outer with
+        | .step _ _ _ => { s with aw := .stepInfo w }
+        | .resume => die s "model:wait-one-in-resume"
   -- single_step: getsiginfo after every wait
   | .stepInfo w, .siginfo t code pcn r =>
-    match s.stack with
-    | .step t0 ipc :: rest =>
+    match s.outer with
+    | .step t0 ipc a =>
       if t ≠ t0 then die s "reject:siginfo"
       else if r ≠ .ok then die s "err:ptrace-getsiginfo"
       else if inTrap w t code then
-        if pcn = ipc then { s with aw := .stepReq t 0 }
-        else match rest with
-          | .stepOver a :: _ => { s with stack := rest, aw := .pokeInt3 a none }
-          | _ => die s "model:bad-stack"
+        if pcn = ipc then { s with aw := .stepReq t 0 } else { s with aw := .pokeInt3 a none }
       else if w == .sig t sigTrap && code == 5 then die s "unsupported:syscall-step"
-      else if w == .evstop t sigStop then
-        match rest with
-        | .stepOver a :: _ => { s with stack := rest, aw := .pokeInt3 a none }
-        | _ => die s "model:bad-stack"
+      else if w == .evstop t sigStop then { s with aw := .pokeInt3 a none }
       else applyNew s w
-    | _ => die s "model:bad-stack"
-  | .waitAny, _ => die s "model:wait-any"
+    | .resume => die s "model:step-info-in-resume"
   -- apply_new_status
   | .siginfo t sg, .siginfo t' code pcn r =>
     if t' ≠ t then die s "reject:siginfo"
@@ -396,13 +407,13 @@ def step (s : St) (e : Ev) : St :=
       else
         let s := { s with tbl := s.tbl.setSt t (.sigstop sg) }
         if isQuiet sg then ret s (some (.sig t sg))
-        else groupStop { s with stack := .applySig t sg :: s.stack } (some t)
+        else groupStop s (some t) (.sig t sg)
   | .setpc t old, .setpc t' new old' r =>
     if t' ≠ t ∨ old' ≠ old ∨ new + 1 ≠ old then die s "reject:setpc"
     else if r ≠ .ok then die s "err:ptrace-setregs"
     else if !hasBp s new then die s "panic:breakpoint-not-found"
     else if s.lifted = some new then die s "model:trap-at-lifted-breakpoint"
-    else groupStop { s with tbl := s.tbl.setSt t .stop, stack := .applyBrk t new :: s.stack } (some t)
+    else groupStop { s with tbl := s.tbl.setSt t .stop } (some t) (.brk t new)
   | .evmsg t, .evmsg t' c r =>
     if t' ≠ t then die s "reject:evmsg"
     else if r ≠ .ok then die s "err:ptrace-geteventmsg"
